@@ -147,8 +147,7 @@ def main(pid, argv):
                     break
         if bad:
             nf += 1
-            if nf <= 3:
-                ck.fail("addr-history", line, bad, impl=il[:600], model=ml[:600])
+            ck.fail("addr-history", line, bad, impl=il[:600], model=ml[:600])
         elif il != ml and ops is not None:
             ck.tie_broken("history results differ from the model", line[:800], il[:400], ml[:400])
     ck.extra["failing_inputs_total"] = nf
